@@ -159,7 +159,14 @@ func play(c Case, withGC bool, v *ev.Verdict) (executed [][]string, fail *ev.Ver
 			for _, fl := range op.Fail {
 				sim.SetFail(m.Targets[live[fl%len(live)]].Name(), true)
 			}
-			res := sim.Build(projsim.BuildReq{Label: m.Label(id), Always: op.Always, DryRun: op.Dry})
+			var res projsim.BuildResult
+			if op.Watch && !op.Dry {
+				// on the history's long-lived Project (Reload + Run), as watch mode builds
+				res = sim.WatchBuild(projsim.BuildReq{Label: m.Label(id), Always: op.Always})
+				v.Classes = append(v.Classes, "build:watch-reload")
+			} else {
+				res = sim.Build(projsim.BuildReq{Label: m.Label(id), Always: op.Always, DryRun: op.Dry})
+			}
 			sim.ClearFails()
 			if res.Panic != "" {
 				f := ev.Failf("panic", "op %d: panic: %s", n, res.Panic)
@@ -214,8 +221,19 @@ func gen(t *rapid.T) Case {
 		case 4, 5, 6:
 			ops = append(ops, projsim.Op{Kind: "gc", I: rapid.IntRange(0, 1).Draw(t, "gcstyle")})
 		default:
-			ops = append(ops, projsim.GenBuild(t, true, true, false))
+			b := projsim.GenBuild(t, true, true, false)
+			b.Watch = rapid.IntRange(0, 2).Draw(t, "watch") == 2
+			ops = append(ops, b)
 		}
+	}
+	if rapid.IntRange(0, 3).Draw(t, "pattern") == 3 {
+		// a watch session sees a target appear, builds it, and the state is collected by a process
+		// that loads through the index
+		top := rapid.IntRange(0, 11).Draw(t, "ptop")
+		ops = append(ops, projsim.Op{Kind: "build", T: top, Watch: true})
+		ops = append(ops, projsim.GenEdit(t, []string{"target-add", "src-add", "target-add"}))
+		ops = append(ops, projsim.Op{Kind: "build", T: 11, Watch: true}, projsim.Op{Kind: "build", T: top, Watch: true})
+		ops = append(ops, projsim.Op{Kind: "gc", I: 1})
 	}
 	ops = append(ops, projsim.GenBuild(t, false, false, false))
 	return Case{M: m, Ops: ops}
